@@ -191,19 +191,10 @@ def softClip (xNull memNull : Bool) (x mem : Array α) (N C : Int) : Res (Array 
 def setGain (cur : Int) (value : Int) : Res Int × Int :=
   if value < -32768 ∨ value > 32767 then (.err .badArg, cur) else (.ok 0, value)
 
-/-- What `opus_decode_frame` leaves behind, reduced to what the gain clause talks about:
-    the PCM block, the return value (sample count) and `rangeFinal`. -/
-structure FrameOut (α : Type) where
-  pcm : Array α
-  ret : Int
-  rangeFinal : Nat
-
-/-- opus_decoder.c:646-660: `if (st->decode_gain) { gain = celt_exp2(...); for i: pcm[i] = pcm[i]*gain }`
-    (float build: `MULT16_32_P16(a,b) = a*b`, `SATURATE(x,a) = x`).  `gainOf` is
-    `celt_exp2(6.48814081e-4f * decode_gain)`.  Everything computed before this point
-    (`ret`, `rangeFinal`, the un-scaled PCM) does not see `decode_gain`. -/
-def applyGain (gainOf : Int → α) (decodeGain : Int) (f : FrameOut α) : FrameOut α :=
-  if decodeGain ≠ 0 then { f with pcm := f.pcm.map (fun v => v * gainOf decodeGain) } else f
+/- The per-sample multiplication of the gain block (src/opus_decoder.c:654-668, float build: `MULT16_32_P16(a,b) = a*b`,
+   `SATURATE(x,a) = x`) is one binary32 product per sample with the factor `gainOfF32 g` below; where in the call structure
+   it happens (once per frame, last step, skipped for gain 0 and inside the recursive transition calls) is modelled by
+   `DecSkel.stepGain` / `DecSkel.gain0Call` in C01's decoder skeleton, on which `OpusProps.C19.gain_frame_condition` is stated. -/
 
 end generic
 
